@@ -162,12 +162,13 @@ Definition concretize (ps : list palloc) (es : list edge) (rq : areq) (host vict
        (match victim' with Some v => cpus_of ps v | None => [] end),
    host', victim').
 
-(* what getAvailableCPUs must return for a ledger dump and give-back sets: a CPU is free iff the
-   reference count that remains after the give-backs is below the sharing limit *)
+(* what getAvailableCPUs must return given the live allocations of the HISTORY and the
+   give-back sets: a CPU is free iff the reference count that remains after the give-backs is
+   below the sharing limit and the CPU is not reserved *)
 Definition giveback_count (gb : list (list Z)) (i : Z) : Z :=
   sumZ (map (fun l => if memZ i l then 1 else 0) gb).
-Definition avail_spec (o : nopts) (led : list (Z * Z)) (gb : list (list Z)) : list Z :=
-  filter (fun i => negb (o_maxref o <=? Z.max 0 (lookupZ i led - giveback_count gb i))
+Definition avail_spec (o : nopts) (ps : list palloc) (gb : list (list Z)) : list Z :=
+  filter (fun i => negb (o_maxref o <=? Z.max 0 (ref_of_pods ps i - giveback_count gb i))
                    && negb (memZ i (o_reserved o))) (map cid (o_topo o)).
 
 (* ---- decision procedure over an observed history ----
@@ -187,11 +188,11 @@ Definition sum_res (l : list nres) : res2 :=
   fold_right (fun e acc => (fst (snd e) + fst acc, snd (snd e) + snd acc)) (0, 0) l.
 
 (* clauses on a successful Allocate *)
-Definition alloc_code (o : nopts) (rq : areq) (prev : lobs) (b : lobs) : Z :=
+Definition alloc_code (o : nopts) (rq : areq) (ps : list palloc) (b : lobs) : Z :=
   let T := o_topo o in
   let s := lo_cpus b in
   if negb (strictly_asc s) then 11
-  else if negb (subsetb s (avail_spec o (lo_ledger prev) (givebacks rq))) then 12
+  else if negb (subsetb s (avail_spec o ps (givebacks rq))) then 12
   else if negb (lenZ s =? (if r_bindreq rq then Z.max 0 (r_n rq) else 0)) then 13
   else if r_bindreq rq && r_required rq && (r_bind rq =? 1) && uniform_topo T && negb (cores_wholeb T s) then 14
   else if r_bindreq rq && r_required rq && (r_bind rq =? 2) && negb (cores_distinctb T s) then 15
@@ -205,9 +206,9 @@ Definition alloc_code (o : nopts) (rq : areq) (prev : lobs) (b : lobs) : Z :=
                   memZ (fst e) hint
                   && (0 <=? fst (snd e)) && (0 <=? snd (snd e))
                   && (fst (snd e) <=? Z.max 0 (fst (lookup_res (fst e) (o_cap o))
-                                                - fst (nth (Z.to_nat (fst e)) (lo_nled prev) (0, 0))))
+                                                - fst (numa_of_pods ps (fst e))))
                   && (snd (snd e) <=? Z.max 0 (snd (lookup_res (fst e) (o_cap o))
-                                                - snd (nth (Z.to_nat (fst e)) (lo_nled prev) (0, 0)))))
+                                                - snd (numa_of_pods ps (fst e)))))
                 (lo_numa b)) then 18
       else if negb ((r_cpu rq <? 0) || (fst tot =? r_cpu rq)) then 19
       else if negb ((r_mem rq <? 0) || (snd tot =? r_mem rq)) then 20
@@ -216,19 +217,18 @@ Definition alloc_code (o : nopts) (rq : areq) (prev : lobs) (b : lobs) : Z :=
 
 (* clauses on a failed Allocate: it must not fail when the model-independent sufficient
    conditions of the completeness theorems hold *)
-Definition free_sum (o : nopts) (prev : lobs) (hint : list Z) (sel : res2 -> Z) : Z :=
-  sumZ (map (fun nd => Z.max 0 (sel (lookup_res nd (o_cap o))
-                                 - sel (nth (Z.to_nat nd) (lo_nled prev) (0, 0)))) hint).
-Definition fail_code (o : nopts) (rq : areq) (prev : lobs) : Z :=
+Definition free_sum (o : nopts) (ps : list palloc) (hint : list Z) (sel : res2 -> Z) : Z :=
+  sumZ (map (fun nd => Z.max 0 (sel (lookup_res nd (o_cap o)) - sel (numa_of_pods ps nd))) hint).
+Definition fail_code (o : nopts) (rq : areq) (ps : list palloc) : Z :=
   match r_hint rq with
   | None =>
     if negb (r_bindreq rq) then 30
-    else if negb (r_required rq) && (r_n rq <=? lenZ (lo_avail prev)) then 29 else 0
+    else if negb (r_required rq) && (r_n rq <=? lenZ (avail_spec o ps [])) then 29 else 0
   | Some hint =>
     if negb (r_bindreq rq) && negb (r_required rq)
        && match o_cap o with [] => false | _ => true end
-       && ((r_cpu rq <? 0) || (r_cpu rq <=? free_sum o prev hint fst))
-       && ((r_mem rq <? 0) || (r_mem rq <=? free_sum o prev hint snd))
+       && ((r_cpu rq <? 0) || (r_cpu rq <=? free_sum o ps hint fst))
+       && ((r_mem rq <? 0) || (r_mem rq <=? free_sum o ps hint snd))
     then 28 else 0
   end.
 
@@ -242,50 +242,69 @@ Definition dump_code (o : nopts) (ps : list palloc) (es : list edge) (clean : bo
   else if negb (forallb (fun k => let nd := Z.of_nat k in
                    let r := numa_of_pods ps nd in let d := nth k (lo_nled b) (0, 0) in
                    (fst d =? fst r) && (snd d =? snd r)) (seq 0 (length (lo_nled b)))) then 24
-  else if negb (eq_listZ (lo_avail b)
-                 (filter (fun i => negb (o_maxref o <=? lookupZ i (lo_ledger b))
-                                   && negb (memZ i (o_reserved o))) (map cid T))) then 25
-  else if clean && negb (forallb (fun p => snd p - nest_count es (fst p) <=? o_maxref o) (lo_ledger b)) then 26
+  else if negb (eq_listZ (lo_avail b) (avail_spec o ps [])) then 25
+  else if clean && negb (forallb (fun i => ref_of_pods ps i - nest_count es i <=? o_maxref o) universe) then 26
   else if clean && negb (forallb (fun e =>
-                   let d := nth (Z.to_nat (fst e)) (lo_nled b) (0, 0) in
+                   let d := numa_of_pods ps (fst e) in
                    (fst d <=? fst (snd e)) && (snd d <=? snd (snd e))) (o_cap o)) then 27
   else 0.
 
 Definition lo_init : lobs := mkLO true [] [] [] [] [].
 
-(* fold over the history; [prev] is the previous dump (initially: everything free) *)
-Fixpoint hist_code (o : nopts) (ps : list palloc) (es : list edge) (clean : bool) (prev : lobs)
-                   (ops : list op) (obs : list lobs) : Z :=
+(* fold over the history: every figure the implementation is judged against is recomputed
+   from the history (the live allocations [ps] as returned by the successful operations, the
+   edges [es]); returns the first failing clause and the final bookkeeping *)
+Fixpoint hist_fold (o : nopts) (ps : list palloc) (es : list edge) (clean : bool)
+                   (ops : list op) (obs : list lobs) : Z * list palloc * list edge * bool :=
   match ops, obs with
-  | [], [] => 0
+  | [], [] => (0, ps, es, clean)
   | x :: ops', b :: obs' =>
     let '(c, ps', es', clean') :=
       match x with
       | OAlloc rq =>
         if lo_ok b
-        then (alloc_code o rq prev b, pods_put ps (mkP (r_uid rq) (lo_cpus b) (r_excl rq) (lo_numa b)),
+        then (alloc_code o rq ps b, pods_put ps (mkP (r_uid rq) (lo_cpus b) (r_excl rq) (lo_numa b)),
               edges_del es (r_uid rq), clean)
-        else (fail_code o rq prev, ps, es, clean)
+        else (fail_code o rq ps, ps, es, clean)
       | ORelease uid => (0, pods_del ps uid, edges_del es uid, clean)
-      | OUpdate p => (0, pods_put ps p, edges_del es (p_uid p), false)
+      | OUpdate p => if palloc_empty p then (0, ps, es, clean)
+                     else (0, pods_put ps p, edges_del es (p_uid p), false)
       | OAllocR rq0 host0 victim0 =>
         let '(rq, host, victim) := concretize ps es rq0 host0 victim0 in
         if lo_ok b
-        then (alloc_code o rq prev b,
+        then (alloc_code o rq ps b,
               pods_put (match victim with Some v => pods_del ps v | None => ps end)
                        (mkP (r_uid rq) (lo_cpus b) (r_excl rq) (lo_numa b)),
               edges_alloc es rq host victim (lo_cpus b), clean)
-        else (fail_code o rq prev, ps, es, clean)
+        else (fail_code o rq ps, ps, es, clean)
       end in
-    if negb (c =? 0) then c
+    if negb (c =? 0) then (c, ps', es', clean')
     else let d := dump_code o ps' es' clean' b in
-         if negb (d =? 0) then d else hist_code o ps' es' clean' b ops' obs'
-  | _, _ => 99
+         if negb (d =? 0) then (d, ps', es', clean') else hist_fold o ps' es' clean' ops' obs'
+  | _, _ => (99, ps, es, clean)
   end.
 
-Definition first_dump (o : nopts) : lobs :=
-  mkLO true [] [] []
-       (filter (fun i => negb (memZ i (o_reserved o))) (map cid (o_topo o))) [].
-
 Definition ledger_code (o : nopts) (ops : list op) (obs : list lobs) : Z :=
-  hist_code o [] [] true (first_dump o) ops obs.
+  fst (fst (fst (hist_fold o [] [] true ops obs))).
+
+(* ---- concurrent section (stream "conc") ----
+   after a sequential set-up history, pod [x] (live) is re-recorded by Update from one
+   goroutine while other goroutines call Allocate; Update is one critical section, so every
+   Allocate must be consistent with the live allocations of the history, which the re-recording
+   does not change *)
+Definition conc_code (o : nopts) (setup : list op) (reqs : list areq)
+                     (obs_setup : list lobs) (results : list lobs) (final : lobs) : Z :=
+  let '(c, ps, es, clean) := hist_fold o [] [] true setup obs_setup in
+  if negb (c =? 0) then c
+  else
+    let fix go (rs : list areq) (bs : list lobs) : Z :=
+      match rs, bs with
+      | [], [] => 0
+      | rq :: rs', b :: bs' =>
+        let c1 := if lo_ok b then alloc_code o rq ps b else fail_code o rq ps in
+        if negb (c1 =? 0) then 100 + c1 else go rs' bs'
+      | _, _ => 99
+      end in
+    let c2 := go reqs results in
+    if negb (c2 =? 0) then c2
+    else let d := dump_code o ps es clean final in if negb (d =? 0) then 100 + d else 0.
